@@ -443,7 +443,7 @@ class Walker:
         for fid in (res.get("def"), t.get("fn")):
             if fid and fid != self.fn.id and F.is_new_fn(fid):
                 return fid
-            if self.inline_all and fid and fid != self.fn.id:
+            if self.inline_all and fid and fid != self.fn.id and fid not in getattr(F, "noinline", ()):
                 g = F.fns.get(fid)
                 if g is not None and not g.is_closure:
                     return fid
@@ -453,7 +453,8 @@ class Walker:
         """{callee type/const parameter name: argument text} for a direct call of `inl`, None when unknown"""
         F = self.facts
         g = F.fns.get(inl) if F is not None else None
-        if g is None or t.get("fn") != inl or t.get("res"):
+        res = t.get("res") or {}
+        if g is None or t.get("fn") != inl or (res and res.get("def") not in (None, inl)):
             return None
         names = g.j.get("generics")
         targs = t.get("targs")
@@ -811,6 +812,13 @@ def subst_generics(e, gmap, rx, memo):
         r = ("cast", e[1], subst_generics(e[2], gmap, rx, memo), sub(e[3])) + tuple(sub(x) for x in e[4:])
     elif t in ("param", "upvar", "cparam", "unknown"):
         r = e
+    elif t == "agg" and e[1] == "closure":
+        # the closure body lives in the inlined function: remember the instantiation for when the body is summarised
+        prev = dict(e[4]) if len(e) > 4 and e[4] else {}
+        prev = {k2: sub(v2) for k2, v2 in prev.items()}
+        for k2, v2 in gmap.items():
+            prev.setdefault(k2, v2)
+        r = ("agg", "closure", e[2], tuple(subst_generics(x, gmap, rx, memo) for x in e[3]), tuple(sorted(prev.items())))
     else:
         r = tuple(subst_generics(x, gmap, rx, memo) if isinstance(x, tuple) else x for x in e)
     memo[k] = r
@@ -869,7 +877,7 @@ def subst_params(e, mapping, memo=None):
     elif t == "cast":
         r = ("cast", e[1], subst_params(e[2], mapping, memo), e[3]) + tuple(e[4:])
     elif t == "agg":
-        r = ("agg", e[1], e[2], tuple(subst_params(a, mapping, memo) for a in e[3]))
+        r = ("agg", e[1], e[2], tuple(subst_params(a, mapping, memo) for a in e[3])) + tuple(e[4:])
     elif t == "index":
         r = ("index", subst_params(e[1], mapping, memo), subst_params(e[2], mapping, memo))
     else:
